@@ -48,6 +48,11 @@ pub trait Model: Encode + Decode + Clone + PartialEq + std::fmt::Debug {
     fn big_model_ok() -> bool {
         false
     }
+    /// for sequences of fixed-size items: is the encoding the plain concatenation of the items' own
+    /// standalone encodings? `None` for other types
+    fn concat_oracle(&self) -> Option<bool> {
+        None
+    }
     /// for union-like types (derived unions, Option): the number of declared variants
     fn union_variants() -> Option<usize> {
         None
@@ -237,6 +242,17 @@ fn gen_len(g: &mut Rng, size: usize) -> usize {
 }
 
 impl<T: Model> Model for Vec<T> {
+    fn concat_oracle(&self) -> Option<bool> {
+        if <T as Encode>::is_ssz_fixed_len() {
+            let mut want = Vec::new();
+            for x in self.iter() {
+                want.extend(x.as_ssz_bytes());
+            }
+            Some(self.as_ssz_bytes() == want)
+        } else {
+            None
+        }
+    }
     fn big_model_ok() -> bool {
         // thousands of small variable-size items are fine for the model; tens of thousands of fixed ones are not
         !<T as Encode>::is_ssz_fixed_len()
@@ -277,6 +293,17 @@ impl<T: Model> Model for Vec<T> {
 }
 
 impl<T: Model, const N: usize> Model for SmallVec<[T; N]> {
+    fn concat_oracle(&self) -> Option<bool> {
+        if <T as Encode>::is_ssz_fixed_len() {
+            let mut want = Vec::new();
+            for x in self.iter() {
+                want.extend(x.as_ssz_bytes());
+            }
+            Some(self.as_ssz_bytes() == want)
+        } else {
+            None
+        }
+    }
     fn big_model_ok() -> bool {
         // thousands of small variable-size items are fine for the model; tens of thousands of fixed ones are not
         !<T as Encode>::is_ssz_fixed_len()
@@ -317,6 +344,17 @@ impl<T: Model, const N: usize> Model for SmallVec<[T; N]> {
 }
 
 impl<T: Model + Ord> Model for BTreeSet<T> {
+    fn concat_oracle(&self) -> Option<bool> {
+        if <T as Encode>::is_ssz_fixed_len() {
+            let mut want = Vec::new();
+            for x in self.iter() {
+                want.extend(x.as_ssz_bytes());
+            }
+            Some(self.as_ssz_bytes() == want)
+        } else {
+            None
+        }
+    }
     fn big_model_ok() -> bool {
         // thousands of small variable-size items are fine for the model; tens of thousands of fixed ones are not
         !<T as Encode>::is_ssz_fixed_len()
